@@ -361,6 +361,36 @@ func runValCase(idx int, c *valCase) (string, []MonitorHit, map[string]int, bool
 			}
 			recommit(b, pre, b.LastCommit.BlockID, r.Chance(3, 4))
 		}},
+		{"commit-forged-nil-vote", h > 1, func(b *types.Block) {
+			// a precommit for nil attributed to a validator who did not sign it (its slot was empty or
+			// is overwritten): it does not count, but the commit no longer re-verifies vote by vote
+			pre := copyPre(b)
+			if len(pre) > 0 && last.set.Size() > 0 {
+				i := r.Intn(len(pre))
+				if i < last.set.Size() {
+					v := sign(last, i, b.Header.Height-1, round, types.VoteTypePrecommit, types.BlockID{})
+					sig := v.Signature.(crypto.SignatureEd25519)
+					sig[r.Intn(64)] ^= 0x10
+					v.Signature = sig
+					pre[i] = v
+				}
+			}
+			recommit(b, pre, b.LastCommit.BlockID, true)
+		}},
+		{"commit-forged-other-block-vote", h > 1, func(b *types.Block) {
+			pre := copyPre(b)
+			if len(pre) > 0 && last.set.Size() > 0 {
+				i := r.Intn(len(pre))
+				if i < last.set.Size() {
+					v := sign(last, i, b.Header.Height-1, round, types.VoteTypePrecommit, otherID)
+					sig := v.Signature.(crypto.SignatureEd25519)
+					sig[r.Intn(64)] ^= 0x10
+					v.Signature = sig
+					pre[i] = v
+				}
+			}
+			recommit(b, pre, b.LastCommit.BlockID, true)
+		}},
 		{"commit-all-other-block", h > 1, func(b *types.Block) {
 			pre := copyPre(b)
 			for i := range pre {
@@ -468,6 +498,16 @@ func runValCase(idx int, c *valCase) (string, []MonitorHit, map[string]int, bool
 			total := int64(0)
 			for _, v := range last.set.Validators {
 				total += v.VotingPower
+			}
+			for i, v := range b.LastCommit.Precommits {
+				if v == nil || i >= last.set.Size() {
+					continue
+				}
+				_, val := last.set.GetByIndex(i)
+				if !val.PubKey.VerifyBytes(types.SignBytes(valChainID, v), v.Signature) {
+					hit("accepted-with-unverifiable-precommit kind="+names, fmt.Sprintf("ValidateBlock accepts a height-%d block whose last commit holds a precommit in slot %d that does not verify under that validator's key", h, i))
+					break
+				}
 			}
 			if !(have*3 > total*2) {
 				hit("accepted-without-two-thirds kind="+names, fmt.Sprintf("ValidateBlock accepts a height-%d block whose last commit carries valid precommits of %d of %d voting power", h, have, total))
